@@ -2,6 +2,7 @@
    evaluation time with identical payload; exclusive events go to the owning entity only. *)
 From BEI Require Export Check.App.
 From BEI Require Import Spec.Events Spec.ReadSpec.
+From BEI Require Check.C05c.
 Open Scope Z_scope.
 
 Definition got_of (c e : Z) (o : out) : bool :=
@@ -36,7 +37,10 @@ Definition judge_frame (sc : scenario) (before o : out) : list (Z * bool) :=
 
 (* per-entity instances with different gamepads are independent: every probed binding of an exclusive instance
    reads its own device (the probe is the binding's first modifier); non-consuming profile *)
+Definition consuming_profile (sc : scenario) : bool :=
+  existsb (fun x => existsb (fun a => aid_consume (a_id a)) (i_actions (snd x))) (s_cfg sc).
 Definition judge_reads (sc : scenario) (f : frame_in) (before o : out) : list (Z * bool) :=
+  if consuming_profile sc then [] else
   flat_map (fun x =>
     let '(c, e, spec) := x in
     if negb (ctx_shared c) && got_of c e before then
@@ -84,9 +88,36 @@ Fixpoint judge_steps (sc : scenario) (ages : list Z) (before : out) (steps : lis
   | [], [] => []
   | _, _ => [(9, false)]
   end.
+(* a rebuild closes the episodes of a shared context for ALL its holders: the closing events of the step, like the
+   events of a frame, are the same list for every holder *)
+Definition judge_rebuild (sc : scenario) (before o : out) : list (Z * bool) :=
+  flat_map (fun c =>
+    if ctx_shared c then
+      let hs := filter (fun e => got_of c e before && got_of c e o) (s_ents sc) in
+      let acts := actions_of_ctx sc c in
+      let evs_of (e : Z) := map retarget (filter (fun ev => Z.eqb (e_target ev) e && memz (e_action ev) acts) (x_main o)) in
+      match hs with
+      | [] => []
+      | h0 :: rest => [(2, forallb (fun e => list_eqb event_eqb (evs_of e) (evs_of h0)) rest)]
+      end
+    else []) (s_menu sc).
+Fixpoint judge_ops (sc : scenario) (before : out) (steps : list step) (outs : list out) : list (Z * bool) :=
+  match steps, outs with
+  | SOp ORebuild :: steps', o :: outs' => judge_rebuild sc before o ++ judge_ops sc o steps' outs'
+  | _ :: steps', o :: outs' => judge_ops sc o steps' outs'
+  | _, _ => []
+  end.
+(* instances tied to different gamepads are independent ALSO in what they consume: every read of every instance is
+   the raw input of its own device unless something related - same device, or an unrestricted instance - was
+   consumed before it (the judgement of C05, which knows devices; applied when the profile has consuming actions
+   and one probe per binding) *)
 Definition ok (p : scenario * trace_t) : Z :=
   match p with
-  | (sc, trace outs) => first_fail (judge_steps sc (map (fun _ => 0) (s_cfg sc)) (mkOut [] [] [] [] [] [] [] true true false) (s_steps sc) outs)
+  | (sc, trace outs) =>
+      let r := first_fail (judge_steps sc (map (fun _ => 0) (s_cfg sc)) (mkOut [] [] [] [] [] [] [] true true false) (s_steps sc) outs ++
+                           judge_ops sc (mkOut [] [] [] [] [] [] [] true true false) (s_steps sc) outs) in
+      if negb (Z.eqb r 0) then r
+      else if consuming_profile sc then (if Z.eqb (Check.C05c.ok5 p) 0 then 0 else 6) else 0
   | (_, panic) => 10
   end.
 Definition bad_agree := bad agree_full.
